@@ -12,11 +12,72 @@ import ast
 import re
 
 from sa import sigdata, families, codec, tables
-from sa.interp import alpha, Interp, Scenario, Sym, Const, Bytes, Enum, render, render_items, merge_consts, render_item
+from sa.interp import alpha, sl, Interp, Scenario, Sym, Const, Bytes, Enum, render, render_items, merge_consts, render_item
 from sa.loader import AnalysisError, dotted
 from sa.sigdata import enum_const
+from sa.templates import unmodelled, b2i_forms, resolve_lookup, display_keys, area_template, match, render_template, Pred, C, BYTE, SYM
 
 noinline = lambda f: False  # noqa: E731
+
+
+def at(fi, **by_index):
+    """Scenario arguments given by parameter POSITION (`p1=` is the first parameter after self): the rules never depend on
+    what a parameter is called; the Sym text chosen here is the name the expectations use."""
+    p = fi.params
+    out = {}
+    for k, v in by_index.items():
+        i = int(k[1:])
+        if i >= len(p):
+            raise AnalysisError('%s: parameter %d vanished' % (fi.qualname, i))
+        out[p[i]] = v
+    return out
+
+
+def split_args(t):
+    """Top-level comma split of a rendered argument list."""
+    out, d, cur = [], 0, ''
+    for ch in t:
+        if ch in '([{':
+            d += 1
+        elif ch in ')]}':
+            d -= 1
+        if ch == ',' and d == 0:
+            out.append(cur.strip())
+            cur = ''
+        else:
+            cur += ch
+    if cur.strip():
+        out.append(cur.strip())
+    return out
+
+
+def positional(text, callee_text, params=()):
+    """Argument texts of the rendered call `callee_text(...)` in positional order: a starred tuple display is spliced
+    (f(*(a, b)) is f(a, b)) and keyword arguments are bound by the callee's parameter names.  None if `text` is another call."""
+    if not (text.startswith(callee_text + '(') and text.endswith(')')):
+        return None
+    out, kw = [], {}
+    for a in split_args(text[len(callee_text) + 1:-1]):
+        if a.startswith('*(') and a.endswith(')') and not a.startswith('**'):
+            out.extend(split_args(a[2:-1]))
+        elif a.startswith('*[') and a.endswith(']'):
+            out.extend(split_args(a[2:-1]))
+        elif re.match(r'^[A-Za-z_]\w*=[^=]', a):
+            k, v = a.split('=', 1)
+            kw[k] = v
+        else:
+            out.append(a)
+    for p in list(params)[len(out):]:
+        if p not in kw:
+            break
+        out.append(kw.pop(p))
+    return out + ['%s=%s' % kv for kv in sorted(kw.items())]
+
+
+def addnew_hashed(args, kw):
+    """Is this addnew(name, hashed, **options) call (rendered argument texts) filed in the hashed area?  True / False / None = not a literal."""
+    v = kw.get('hashed', args[1] if len(args) > 1 else 'False')
+    return True if v == 'True' else False if v == 'False' else None
 
 
 def run(rep, prog, tier):
@@ -43,86 +104,122 @@ def run(rep, prog, tier):
 
 
 # ------------------------------------------------------------------------------------------------ C02.1c
-def _new_calls(states):
+def _new_calls(states, prog):
+    """(state, call) for every PGPSignature.new call, the call's argument texts bound to the callee's parameters in order (a call
+    spelled with keywords and one spelled positionally are the same call)."""
+    params = prog.method('pgpy.pgp', 'PGPSignature', 'new').params[1:]
     out = []
     for s in states:
         for c in s.calls:
-            if c[0] == 'PGPSignature.new' and (s, c) not in out:
-                out.append((s, c))
+            if c[0] == 'PGPSignature.new':
+                a = list(c[1])
+                for p in params[len(a):]:
+                    if p not in c[2]:
+                        break
+                    a.append(c[2][p])
+                c2 = (c[0], a, c[2], c[3], c[4])
+                if not any(x[1][:3] == c2[:3] and x[0] is s for x in out):
+                    out.append((s, c2))
     return out
 
 
 def check_type_selection(rep, prog):
     K = 'pgpy.pgp'
-    msg_ct = Sym('subject', types={'PGPMessage'}, attrs={'type': Const('cleartext')}, nonnull=True)
-    msg_lit = Sym('subject', types={'PGPMessage'}, attrs={'type': Const('literal')}, nonnull=True)
+
+    def S(name, types, **attrs):
+        return Sym(name, types=set(types), attrs={k: Const(v) for k, v in attrs.items()}, nonnull=True)
+    # (method, value of the first parameter, expected type, label, texts the subject handed to _sign may have)
     cases = [
-        ('sign', {'subject': Sym('subject', types={'bytes'}, nonnull=True)}, 'SignatureType.BinaryDocument', 'bytes'),
-        ('sign', {'subject': Sym('subject', types={'str'}, nonnull=True)}, 'SignatureType.BinaryDocument', 'str'),
-        ('sign', {'subject': Const(None)}, 'SignatureType.Timestamp', 'None'),
-        ('sign', {'subject': msg_ct}, 'SignatureType.CanonicalDocument', 'cleartext message'),
-        ('sign', {'subject': msg_lit}, 'SignatureType.BinaryDocument', 'literal message'),
-        ('certify', {'subject': Sym('subject', types={'PGPUID'}, nonnull=True)}, 'level', 'user id'),
-        ('certify', {'subject': Sym('subject', types={'PGPKey'}, nonnull=True)}, 'SignatureType.DirectlyOnKey', 'key'),
-        ('revoke', {'target': Sym('target', types={'PGPUID'}, nonnull=True)}, 'SignatureType.CertRevocation', 'user id'),
-        ('revoke', {'target': Sym('target', types={'PGPKey'}, attrs={'is_primary': Const(True)}, nonnull=True)}, 'SignatureType.KeyRevocation', 'primary'),
-        ('revoke', {'target': Sym('target', types={'PGPKey'}, attrs={'is_primary': Const(False)}, nonnull=True)}, 'SignatureType.SubkeyRevocation', 'subkey'),
-        ('revoker', {'revoker': Sym('revoker', types={'PGPKey'}, nonnull=True)}, 'SignatureType.DirectlyOnKey', 'revoker'),
+        ('sign', S('subject', ['bytes']), 'SignatureType.BinaryDocument', 'bytes', ['subject']),
+        ('sign', S('subject', ['str']), 'SignatureType.BinaryDocument', 'str', ['subject']),
+        ('sign', Const(None), 'SignatureType.Timestamp', 'None', ['None']),
+        ('sign', S('subject', ['PGPMessage'], type='cleartext'), 'SignatureType.CanonicalDocument', 'cleartext message', ['subject._signed_data']),
+        ('sign', S('subject', ['PGPMessage'], type='literal'), 'SignatureType.BinaryDocument', 'literal message',
+         ['subject._signed_data', 'subject.message']),
+        ('certify', S('subject', ['PGPUID']), 'level', 'user id', ['subject']),
+        ('certify', S('subject', ['PGPKey']), 'SignatureType.DirectlyOnKey', 'key', ['subject']),
+        ('revoke', S('target', ['PGPUID']), 'SignatureType.CertRevocation', 'user id', ['target']),
+        ('revoke', S('target', ['PGPKey'], is_primary=True), 'SignatureType.KeyRevocation', 'primary', ['target']),
+        ('revoke', S('target', ['PGPKey'], is_primary=False), 'SignatureType.SubkeyRevocation', 'subkey', ['target']),
+        ('revoker', S('revoker', ['PGPKey']), 'SignatureType.DirectlyOnKey', 'revoker', ['self']),
     ]
-    for meth, args, want, label in cases:
+    for meth, subj, want, label, exp_subj in cases:
         fi = prog.method(K, 'PGPKey', meth)
         rep.saw(fn=fi)
+        args = at(fi, p1=subj)
+        if meth == 'certify':
+            args.update(at(fi, p2=Sym('level')))
         outs = Interp(prog, Scenario(args=args, inline=noinline, join_unknown=True)).run(fi)
         rep.analysed['paths'] += len(outs)
-        news = _new_calls(outs)
-        types = sorted(set(c[1][0] for s, c in news))
+        news = _new_calls(outs, prog)
+        types = sorted(set(resolve_lookup(c[1][0]) if c[1] else None for s, c in news), key=str)
         rep.check(types == [want], 'C02.1c', 'PGPKey.%s' % meth, '%s subject -> %s' % (label, types),
                   '%s of a %s must produce a %s signature' % (meth, label, want), where=fi.where, expected=want, found=types,
                   scenario='%s(%s)' % (meth, label))
+        seen_args = []
         for s, c in news:
             a = c[1]
+            if a in seen_args:
+                continue
+            seen_args.append(a)
             ok = len(a) >= 4 and a[1] == 'self.key_algorithm' and a[3] == 'self.fingerprint.keyid'
             rep.check(ok, 'C02.1c', 'PGPKey.%s' % meth, 'PGPSignature.new(%s)' % ', '.join(a),
                       'the new signature must name the signing key\'s own algorithm and key id', where=fi.where,
                       expected='PGPSignature.new(<type>, self.key_algorithm, <hash>, self.fingerprint.keyid, ...)', found=a,
                       scenario='%s(%s)' % (meth, label))
-            break
         # subject handed to _sign
-        subj_param = list(args)[0]
+        nsign = 0
         for s in outs:
-            sg = [c for c in s.calls if c[0] == 'self._sign']
-            for c in sg:
+            for c in s.calls:
+                if c[0] != 'self._sign':
+                    continue
+                nsign += 1
                 got = c[1][0] if c[1] else None
-                if meth == 'sign' and 'message' in label:
-                    exp_subj = ['subject._signed_data', 'subject.message']
-                    if label.startswith('cleartext'):
-                        exp_subj = ['subject._signed_data']
-                elif meth == 'revoker':
-                    exp_subj = ['self']
-                else:
-                    exp_subj = [subj_param, render(args[subj_param])]
                 rep.check(got in exp_subj, 'C02.1c', 'PGPKey.%s' % meth, '%s: _sign subject %s' % (label, got),
                           'the data signed must be the caller\'s subject', where=fi.where, expected=exp_subj, found=got,
                           scenario='%s(%s)' % (meth, label))
+        if not nsign and not any(s.raised is None for s in outs):
+            raise AnalysisError('PGPKey.%s: no returning path for a %s subject' % (meth, label))
     # bind: type from the key roles
     fb = prog.method(K, 'PGPKey', 'bind')
     for sp, kp, want in ((True, False, 'SignatureType.Subkey_Binding'), (False, True, 'SignatureType.PrimaryKey_Binding')):
-        sc = Scenario(bind={'self.is_primary': Const(sp)}, args={'key': Sym('key', types={'PGPKey'}, attrs={'is_primary': Const(kp)}, nonnull=True)},
-                      inline=noinline)
+        sc = Scenario(bind={'self.is_primary': Const(sp)}, args=at(fb, p1=S('key', ['PGPKey'], is_primary=kp)), inline=noinline)
         outs = Interp(prog, sc).run(fb)
-        types = sorted(set(c[1][0] for s, c in _new_calls(outs)))
+        types = sorted(set(resolve_lookup(c[1][0]) for s, c in _new_calls(outs, prog) if c[1]))
         rep.check(types == [want], 'C02.1c', 'PGPKey.bind', 'primary=%s binds primary=%s -> %s' % (sp, kp, types),
                   'a primary binding a subkey makes 0x18; a subkey binding its primary makes 0x19', where=fb.where, expected=want, found=types)
+        for a in sorted(set(tuple(c[1]) for s, c in _new_calls(outs, prog))):
+            rep.check(len(a) >= 4 and a[1] == 'self.key_algorithm' and a[3] == 'self.fingerprint.keyid', 'C02.1c', 'PGPKey.bind',
+                      'PGPSignature.new(%s)' % ', '.join(a), 'the new signature must name the signing key\'s own algorithm and key id',
+                      where=fb.where, expected='PGPSignature.new(<type>, self.key_algorithm, <hash>, self.fingerprint.keyid, ...)', found=list(a))
+        subj = sorted(set(c[1][0] if c[1] else None for s in outs for c in s.calls if c[0] == 'self._sign'), key=str)
+        rep.check(subj == ['key'], 'C02.1c', 'PGPKey.bind', 'primary=%s binds primary=%s: _sign subject %s' % (sp, kp, subj),
+                  'the data signed must be the caller\'s subject (the key being bound)', where=fb.where, expected=['key'], found=subj)
 
 
 # ------------------------------------------------------------------------------------------------ C02.2
+def must_model(ok, construct, found):
+    """A mismatch on a value that carries residue of an unmodelled construct is not a verdict: exit 2."""
+    if not ok:
+        u = unmodelled(found)
+        if u is not None:
+            raise AnalysisError('%s: %r is outside what the byte-term interpreter models; cannot compare with the layout' % (construct, u))
+    return ok
+
+
+def halg_aliases(S):
+    """Texts that denote the hash algorithm of the PGPSignature S (the getter is pinned to the packet field by C05.5)."""
+    return ['%s.hash_algorithm' % S, '%s._signature.halg' % S]
+
+
 def check_sign_flow(rep, prog):
     fi = prog.method('pgpy.pgp', 'PGPKey', '_sign')
     rep.saw(fn=fi)
-    sc = Scenario(args={'sig': Sym('sig', types={'PGPSignature'}, nonnull=True)}, inline=noinline, join_unknown=True,
-                  axioms={'(sig.hash_algorithm is None)': False})
+    sc = Scenario(args=at(fi, p1=Sym('subject'), p2=Sym('sig', types={'PGPSignature'}, nonnull=True)), inline=noinline, join_unknown=True,
+                  axioms={'(sig.hash_algorithm is None)': False, '(sig._signature.halg is None)': False})
     outs = Interp(prog, sc).run(fi)
     rep.analysed['paths'] += len(outs)
+    HD = 'sig.hashdata(subject)'
     n = 0
     for s in outs:
         if s.raised:
@@ -137,19 +234,21 @@ def check_sign_flow(rep, prog):
                           'expected exactly one hashdata computation feeding one signing call', where=fi.where)
             continue
         rep.check(hd[0][2] == ['subject'], 'C02.2', 'PGPKey._sign', 'hashdata(%s)' % hd[0][2], 'the subject hashed must be the caller\'s subject',
-                  where=fi.where, expected='sig.hashdata(subject)', found=hd[0][2])
+                  where=fi.where, expected=HD, found=hd[0][2])
         a = signs[0][1]
-        rep.check(a[:1] == ['sig.hashdata(subject)'], 'C02.2', 'PGPKey._sign', 'signer data %s' % a[:1],
-                  'the signer must sign the very octets that hashdata produced', where=fi.where, expected='sig.hashdata(subject)', found=a[:1])
-        families.check_hash_object(rep, prog, 'C02.2', 'PGPKey._sign', a[1] if len(a) > 1 else None, 'sig', fi.where)
+        rep.check(a[:1] == [HD], 'C02.2', 'PGPKey._sign', 'signer data %s' % a[:1],
+                  'the signer must sign the very octets that hashdata produced', where=fi.where, expected=HD, found=a[:1])
+        families.check_hash_object(rep, prog, 'C02.2', 'PGPKey._sign', a[1] if len(a) > 1 else signs[0][2].get('hash_alg'), 'sig', fi.where)
         h2 = [v for p, v, l, _ in s.stores if p == 'sig._signature.hash2']
-        exp = 'SLICE(HASH(sig.hash_algorithm;sig.hashdata(subject));;2)'
-        rep.check(h2 == [exp], 'C02.2', 'PGPKey._sign', 'hash2 = %s' % h2,
+        # the digest object: <halg>.hasher (a fresh hashlib object of the algorithm's own name, C02.1.ids) or hashlib.new(<halg>.name)
+        exp = [sl([('HASH', alg, [('SYM', HD)])], ('', 2)) for h in halg_aliases('sig') for alg in (h, h + '.name')]
+        rep.check(len(h2) == 1 and h2[0] in exp, 'C02.2', 'PGPKey._sign', 'hash2 = %s' % h2,
                   'the left 16 bits stored must be the first two octets of the digest of the signed data under the signature\'s hash',
-                  where=fi.where, expected=exp, found=h2)
+                  where=fi.where, expected=exp[0], found=h2)
         # nothing hashed is added after hashdata
         idx = s.events.index(hd[0])
-        late = [e for e in s.events[idx + 1:] if e[0] == 'call' and e[1].endswith('.addnew') and e[3].get('hashed') == 'True']
+        late = [e for e in s.events[idx + 1:] if e[0] == 'call' and e[1].endswith('.addnew') and addnew_hashed(e[2], e[3]) is not False]
+        late += [e for e in s.events[idx + 1:] if e[0] == 'store' and re.match(r"^sig\._signature\.subpackets(\[\(?'h_|\._hashed)", e[1])]
         late_type = [e for e in s.events[idx + 1:] if e[0] == 'store' and e[1] in ('sig._signature.sigtype', 'sig._signature.halg', 'sig._signature.pubalg')]
         rep.check(not late and not late_type, 'C02.2', 'PGPKey._sign', 'changes after hashdata: %s' % [e[1:3] for e in late + late_type],
                   'what is hashed must be final: no hashed subpacket or header field may change after hashdata', where=fi.where)
@@ -163,9 +262,11 @@ def check_sign_flow(rep, prog):
         raise AnalysisError('PGPKey._sign: no returning path')
     # PrivKeyV4.sign delegates unchanged
     pv = prog.method('pgpy.packet.packets', 'PrivKeyV4', 'sign')
-    for s in Interp(prog, Scenario(inline=noinline)).run(pv):
-        rep.check(render(s.ret) == 'self.keymaterial.sign(sigdata, hash_alg)', 'C02.2', 'PrivKeyV4.sign', 'return %s' % render(s.ret),
-                  'the key packet hands (sigdata, hash_alg) unchanged to its key material', where=pv.where)
+    km_params = prog.method('pgpy.packet.fields', 'PrivKey', 'sign').params[1:]
+    for s in Interp(prog, Scenario(args=at(pv, p1=Sym('sigdata'), p2=Sym('hash_alg')), inline=noinline)).run(pv):
+        rep.check(positional(render(s.ret), 'self.keymaterial.sign', km_params) == ['sigdata', 'hash_alg'], 'C02.2', 'PrivKeyV4.sign',
+                  'return %s' % render(s.ret), 'the key packet hands (sigdata, hash_alg) unchanged to its key material', where=pv.where,
+                  expected='self.keymaterial.sign(sigdata, hash_alg)', found=render(s.ret))
     # key material sign methods: data and hash reach the library; EdDSA pre-hashes like its verify
     fields = prog.module('pgpy.packet.fields')
     for ci in fields.classes.values():
@@ -173,12 +274,14 @@ def check_sign_flow(rep, prog):
         if f is None or ci.name in ('PrivKey', 'ECDHPriv'):
             continue
         rep.saw(fn=f)
-        for s in Interp(prog, Scenario(inline=noinline)).run(f):
+        for s in Interp(prog, Scenario(args=at(f, p1=Sym('sigdata'), p2=Sym('hash_alg')), inline=noinline)).run(f):
             r = render(s.ret)
             if ci.name == 'EdDSAPriv':
-                ok = r == 'self.__privkey__().sign(HASH(hash_alg;sigdata))'
+                ok = positional(r, 'self.__privkey__().sign') == ['HASH(hash_alg;sigdata)']
             else:
-                ok = r.startswith('self.__privkey__().sign(sigdata, ') and 'hash_alg' in r
+                a = positional(r, 'self.__privkey__().sign') or []
+                # first argument the data; the caller's hash object is an argument itself or the argument of the ECDSA scheme
+                ok = a[:1] == ['sigdata'] and any(x in ('hash_alg', 'ec.ECDSA(hash_alg)', 'ec.ECDSA(algorithm=hash_alg)', 'algorithm=hash_alg') for x in a[1:])
             rep.check(ok, 'C02.2', '%s.sign' % ci.name, 'return %s' % r, 'the library must sign the caller\'s data with the caller\'s hash',
                       where=f.where, found=r)
 
@@ -198,19 +301,107 @@ def _all_self_stores(ci):
     return names
 
 
+class NotLiteral(Exception):
+    pass
+
+
+def _addnew_options(node, where):
+    """(hashed literal or None, {option keyword: value node}) of an addnew call; options given as `**{literal dict}` are read too."""
+    hashed = node.args[1] if len(node.args) > 1 else None
+    opts = {}
+    for kw in node.keywords:
+        if kw.arg == 'hashed':
+            hashed = kw.value
+        elif kw.arg is not None:
+            opts[kw.arg] = kw.value
+        elif isinstance(kw.value, ast.Dict) and all(isinstance(k, ast.Constant) and isinstance(k.value, str) for k in kw.value.keys):
+            for k, v in zip(kw.value.keys, kw.value.values):
+                if k.value == 'hashed':
+                    hashed = v
+                else:
+                    opts[k.value] = v
+        else:
+            raise NotLiteral('%s: addnew options passed through a mapping that is not a literal' % where)
+    return hashed, opts
+
+
+def _mapping_keys(text):
+    """Option names of a rendered `**` argument: a dict display with literal keys or dict(a=..., b=...)."""
+    if text.startswith('{'):
+        ks = display_keys(text)
+        if ks is not None and all(re.match(r"^'\w+'$", k) for k in ks):
+            return [k[1:-1] for k in ks]
+    m = re.match(r'^dict\((.*)\)$', text)
+    if m:
+        parts = split_args(m.group(1))
+        if all(re.match(r'^\w+=', x) for x in parts):
+            return [x.split('=', 1)[0] for x in parts]
+    return None
+
+
+def _toplevel_functions(prog):
+    for m in prog.modules.values():
+        for f in m.functions.values():
+            yield f
+        for c in m.classes.values():
+            for defs in c.all_defs.values():
+                for f in defs:
+                    yield f
+
+
+def _addnew_sites(prog, fn, cache):
+    """(name, hashed True/False/None, option names, where, text) for every addnew call of a top-level function.  A site whose
+    subpacket name or option mapping is not a literal (table-driven code, a loop over (name, field, value) triples, a dict held
+    in a local) is read off the interpreter's call log of the function instead - the loop over a literal table is unrolled there;
+    if the log does not make it literal either the site is outside what the rule understands (exit 2)."""
+    inlined = set(c for c, host in (getattr(prog, 'canon_inlined', None) or []))
+    dead = set()
+    for n in ast.walk(fn.node):
+        if isinstance(n, ast.FunctionDef) and n is not fn.node and n.name in inlined:
+            dead.update(id(x) for x in ast.walk(n))
+    for node in ast.walk(fn.node):
+        if not (isinstance(node, ast.Call) and isinstance(node.func, ast.Attribute) and node.func.attr == 'addnew'):
+            continue
+        w = '%s:%d' % (fn.module.relpath, node.lineno)
+        try:
+            if not node.args or not isinstance(node.args[0], ast.Constant) or not isinstance(node.args[0].value, str):
+                raise NotLiteral('%s: addnew with a non-literal subpacket name' % fn.qualname)
+            hashed, opts = _addnew_options(node, w)
+            hv = hashed.value if isinstance(hashed, ast.Constant) and isinstance(hashed.value, bool) else (False if hashed is None else None)
+            yield node.args[0].value, hv, sorted(opts), w, ast.unparse(node)[:120]
+            continue
+        except NotLiteral as ex:
+            why = str(ex)
+        if fn.qualname not in cache:
+            cache[fn.qualname] = Interp(prog, Scenario(inline=noinline, join_unknown=True)).run(fn)
+        seen = []
+        for s in cache[fn.qualname]:
+            for c in s.calls:
+                if c[0].endswith('.addnew') and c[3] == node.lineno and (c[1], c[2]) not in seen:
+                    seen.append((c[1], c[2]))
+        if not seen:
+            if id(node) in dead:
+                continue            # body of a closure the canonicaliser inlined: its copies are sites of their own
+            raise AnalysisError(why)
+        for args, kw in seen:
+            ks = _mapping_keys(kw['**']) if '**' in kw else []
+            if not args or not re.match(r"^'\w+'$", args[0]) or ks is None:
+                raise AnalysisError(why)
+            names = sorted(set(k for k in list(kw) + ks if k not in ('hashed', '**')))
+            hv = addnew_hashed(args, kw)
+            if 'hashed' in ks:
+                hv = None
+            yield args[0][1:-1], hv, names, w, 'addnew(%s)' % ', '.join(args + ['%s=%s' % kv for kv in kw.items()])[:120]
+
+
 def check_addnew(rep, prog):
     sigmod = prog.module('pgpy.packet.subpackets.signature')
     uamod = prog.module('pgpy.packet.subpackets.userattribute')
     n = 0
-    for fn in prog.all_functions():
-        for node in ast.walk(fn.node):
-            if not (isinstance(node, ast.Call) and isinstance(node.func, ast.Attribute) and node.func.attr == 'addnew'):
-                continue
-            if not node.args or not isinstance(node.args[0], ast.Constant) or not isinstance(node.args[0].value, str):
-                raise AnalysisError('%s: addnew with a non-literal subpacket name' % fn.qualname)
-            name = node.args[0].value
+    cache = {}
+    for fn in _toplevel_functions(prog):
+        for name, hashed, opts, w, text in _addnew_sites(prog, fn, cache):
             ci = sigmod.classes.get(name) or uamod.classes.get(name)
-            w = '%s:%d' % (fn.module.relpath, node.lineno)
             n += 1
             rep.analysed['call_sites'] += 1
             if ci is None:
@@ -220,33 +411,61 @@ def check_addnew(rep, prog):
             # everything a signing API states about the signature goes into the HASHED area (only the issuer key id and the
             # embedded back-signature are advisory / self-authenticating and live in the unhashed area)
             if fn.module.name == 'pgpy.pgp' and name not in ('Issuer', 'EmbeddedSignature', 'Image'):
-                hk = [k for k in node.keywords if k.arg == 'hashed']
-                is_hashed = bool(hk) and isinstance(hk[0].value, ast.Constant) and hk[0].value.value is True
-                rep.check(is_hashed, 'C02.3', fn.qualname, "addnew('%s') hashed" % name,
+                rep.check(hashed is True, 'C02.3', fn.qualname, "addnew('%s') hashed" % name,
                           "subpacket %s is added outside the hashed area, so the signature does not cover it" % name, where=w,
-                          expected="addnew('%s', hashed=True, ...)" % name, found=ast.unparse(node)[:120], scenario=name)
-            for kw in node.keywords:
-                if kw.arg in (None, 'hashed'):
-                    continue
-                rep.check(kw.arg in attrs, 'C02.3', fn.qualname, "addnew('%s', %s=...)" % (name, kw.arg),
-                          "subpacket class %s has no attribute '%s': addnew silently ignores the option" % (name, kw.arg), where=w,
-                          expected='one of %s' % sorted(a for a in attrs if not a.startswith('__'))[:12], found=kw.arg, scenario=name)
-    # options popped from prefs must be used
+                          expected="addnew('%s', hashed=True, ...)" % name, found=text, scenario=name)
+            for k in opts:
+                rep.check(k in attrs, 'C02.3', fn.qualname, "addnew('%s', %s=...)" % (name, k),
+                          "subpacket class %s has no attribute '%s': addnew silently ignores the option" % (name, k), where=w,
+                          expected='one of %s' % sorted(a for a in attrs if not a.startswith('__'))[:12], found=k, scenario=name)
+    # options popped from the caller's keyword mapping must be used: def-use on the function, the mapping found as the **parameter
     for meth in ('sign', 'certify', 'revoke', 'revoker', 'bind', '_sign'):
         f = prog.method('pgpy.pgp', 'PGPKey', meth)
+        kwname = f.node.args.kwarg.arg if f.node.args.kwarg is not None else None
+        if kwname is None:
+            raise AnalysisError('PGPKey.%s: no **options parameter' % meth)
+        loads = {}
+        for x in ast.walk(f.node):
+            if isinstance(x, ast.Name) and isinstance(x.ctx, ast.Load):
+                loads[x.id] = loads.get(x.id, 0) + 1
         for node in ast.walk(f.node):
-            if isinstance(node, ast.Assign) and len(node.targets) == 1 and isinstance(node.targets[0], ast.Name) and \
-                    isinstance(node.value, ast.Call) and dotted(node.value.func) == 'prefs.pop':
-                var = node.targets[0].id
-                loads = [x for x in ast.walk(f.node) if isinstance(x, ast.Name) and x.id == var and isinstance(x.ctx, ast.Load)]
-                rep.check(bool(loads), 'C02.3', 'PGPKey.%s' % meth, 'option %s popped into %s' % (ast.unparse(node.value.args[0]), var),
-                          'a documented option is read from the caller and then never used', where='%s:%d' % (f.module.relpath, node.lineno))
+            if not isinstance(node, ast.Assign):
+                continue
+            pairs = []
+            for t in node.targets:
+                if isinstance(t, (ast.Tuple, ast.List)) and isinstance(node.value, (ast.Tuple, ast.List)) and len(t.elts) == len(node.value.elts):
+                    pairs.extend(zip(t.elts, node.value.elts))
+                else:
+                    pairs.append((t, node.value))
+            for t, v in pairs:
+                if isinstance(t, ast.Name) and isinstance(v, ast.Call) and isinstance(v.func, ast.Attribute) and v.func.attr == 'pop' and \
+                        isinstance(v.func.value, ast.Name) and v.func.value.id == kwname and v.args:
+                    rep.check(loads.get(t.id, 0) > 0, 'C02.3', 'PGPKey.%s' % meth, 'option %s popped into %s' % (ast.unparse(v.args[0]), t.id),
+                              'a documented option is read from the caller and then never used', where='%s:%d' % (f.module.relpath, node.lineno))
+    # RFC 4880 5.2.3.15: the class octet of a revocation key subpacket always carries 0x80; 0x40 marks it sensitive.  Decided where the
+    # interpreter folds the value to a number or an enum member under the two answers to "sensitive?" (other spellings: not decided)
+    fr = prog.method('pgpy.pgp', 'PGPKey', 'revoker')
+    kc = prog.cls('pgpy.constants', 'RevocationKeyClass').enum_members()
+    for sens in (True, False):
+        sc = Scenario(inline=noinline, join_unknown=True,
+                      oracle=lambda t, _s=sens: _s if re.search(r"\.pop\('sensitive'", t) and not t.startswith('not ') else None)
+        for s in Interp(prog, sc).run(fr):
+            for c in s.calls:
+                if not (c[0].endswith('.addnew') and c[1] and c[1][0] == "'RevocationKey'" and 'keyclass' in c[2]):
+                    continue
+                t = c[2]['keyclass']
+                v = int(t) if t.isdigit() else kc.get(t.split('.')[-1]) if t.startswith('RevocationKeyClass.') else None
+                if v is None:
+                    continue
+                rep.check(bool(v & 0x80) and bool(v & 0x40) == sens, 'C02.3', 'PGPKey.revoker', 'sensitive=%s -> class octet %#x' % (sens, v),
+                          'a revocation key class octet must have bit 0x80 set, and 0x40 exactly when the relationship is sensitive',
+                          where=fr.where, expected=hex(0xC0 if sens else 0x80), found=hex(v), scenario='sensitive=%s' % sens)
     # addnew itself: sets every keyword the object has, recomputes the length, files under the hashed key iff hashed
     fa = prog.method('pgpy.packet.fields', 'SubPackets', 'addnew')
     for hashed in (True, False):
-        sc = Scenario(args={'hashed': Const(hashed), 'spname': Sym('spname', types={'str'})}, inline=noinline)
+        sc = Scenario(args=at(fa, p1=Sym('spname', types={'str'}), p2=Const(hashed)), inline=noinline)
         for s in Interp(prog, sc).run(fa):
-            st = [p for p, v, l, _ in s.stores if '[' in p]
+            st = [p.replace("('' + spname)", 'spname') for p, v, l, _ in s.stores if '[' in p]
             want = "self[('h_' + spname)]" if hashed else 'self[spname]'
             rep.check(st == [want], 'C02.3', 'SubPackets.addnew', 'hashed=%s -> %s' % (hashed, st),
                       'a subpacket requested as hashed must be filed in the hashed area (and only then)', where=fa.where, expected=want, found=st)
@@ -256,18 +475,86 @@ def check_addnew(rep, prog):
 
 
 # ------------------------------------------------------------------------------------------------ C02.4
+def _pk_members(prog):
+    ci = prog.cls('pgpy.constants', 'PubKeyAlgorithm')
+    return ci, [(k, Const(Enum('PubKeyAlgorithm', k, v))) for k, v in ci.enum_members().items()]
+
+
+def signing_algorithms(prog):
+    """Members for which PubKeyAlgorithm.can_sign is true: the predicate is evaluated per member by the interpreter (a set
+    display, an or-chain and a tuple test all decide the same way)."""
+    ci, members = _pk_members(prog)
+    cs = ci.methods.get('can_sign') or (ci.find_plain_prop('can_sign') or {}).get('get')
+    if cs is None:
+        raise AnalysisError('PubKeyAlgorithm.can_sign vanished')
+    out = []
+    for k, e in members:
+        rets = set(render(s.ret) for s in Interp(prog, Scenario(inline=noinline)).run(cs, self_val=e))
+        if rets == {'True'}:
+            out.append(k)
+        elif rets != {'False'}:
+            raise AnalysisError('PubKeyAlgorithm.can_sign undecided for %s: %s' % (k, sorted(rets)))
+    if not out:
+        raise AnalysisError('PubKeyAlgorithm.can_sign: no signing algorithm')
+    return out
+
+
+def _consistent_with_displays(s):
+    """False for a path that took a decision `K in {display}` / `K not in {display}` against what the display (a rendered dict,
+    set or tuple literal with decided keys) says: such a path does not exist."""
+    from sa.guards import atoms, eval_skel
+    for text, value, sk in s.facts:
+        def val(atom):
+            if atom[0] == 'cmp' and atom[1] in ('in', 'not in'):
+                keys = display_keys(atom[3])
+                if keys is not None and re.match(r'^[\w.]+$', atom[2]) and all(re.match(r'^[\w.]+$', k) for k in keys):
+                    return (atom[2] in keys) == (atom[1] == 'in')
+            return None
+        v = eval_skel(sk, val) if sk is not None else None
+        if v is not None and v != value:
+            return False
+    return True
+
+
+def signature_class_for(prog, f, e):
+    """Class SignatureV4.pubalg_int installs as `self.signature` when the algorithm octet is member e (table or if-chain)."""
+    sc = Scenario(args=at(f, p1=e), inline=noinline, inline_props={'pubalg'})
+    cands = []
+    for s in Interp(prog, sc).run(f):
+        if s.raised or not _consistent_with_displays(s):
+            continue
+        st = [v for p, v, l, _ in s.stores if p == 'self.signature']
+        if len(st) != 1:
+            raise AnalysisError('%s: %d stores to self.signature' % (f.qualname, len(st)))
+        t = st[0]
+        r = resolve_lookup(t[:-2]) if t.endswith('()') else t
+        handler = any(re.match(r'^except \(?(KeyError|LookupError|Exception)\b', fct[0]) for fct in s.facts)
+        cands.append((r, handler, t.startswith('{') and r != t[:-2], r.startswith('{')))
+    # `table[K]` guarded by `except KeyError`: the subscript succeeds exactly when K is a key of the display, so for a decided K
+    # one of the two paths does not exist
+    if any(hit for r, handler, hit, miss in cands):
+        cands = [c for c in cands if not c[1]]
+    cands = [c for c in cands if not c[3]] if any(c[1] for c in cands) else cands
+    got = set(c[0] for c in cands)
+    if len(got) != 1 or not re.match(r'^\w+$', next(iter(got))):
+        raise AnalysisError('%s: cannot read the signature class chosen for %s: %s' % (f.qualname, render(e), sorted(got)))
+    return next(iter(got))
+
+
 def check_sig_codecs(rep, prog):
     ci = prog.cls('pgpy.packet.packets', 'SignatureV4')
     f = ci.methods.get('pubalg_int')
-    tbl = tables.table(f.node)
-    cs = prog.cls('pgpy.constants', 'PubKeyAlgorithm').methods.get('can_sign')
-    signers = [m.split('.')[-1] for m in (tables.returned_set(cs) or [])]
-    if not signers:
-        raise AnalysisError('PubKeyAlgorithm.can_sign: cannot read the member set')
+    if f is None:
+        raise AnalysisError('SignatureV4.pubalg_int vanished')
+    signers = signing_algorithms(prog)
+    members = dict(_pk_members(prog)[1])
     fields = prog.module('pgpy.packet.fields')
     want = {'RSAEncryptOrSign': 'RSASignature', 'DSA': 'DSASignature', 'ECDSA': 'ECDSASignature', 'EdDSA': 'EdDSASignature'}
+    # RFC 4880 9.1 / RFC 6637 / EdDSA draft: the algorithms that make signatures
+    rep.check(set(want) <= set(signers), 'C02.4', 'PubKeyAlgorithm.can_sign', 'signing algorithms %s' % signers,
+              'an algorithm that makes signatures is not treated as one', where=f.where, expected=sorted(want), found=signers)
     for a in signers:
-        got = tbl.get('PubKeyAlgorithm.%s' % a)
+        got = signature_class_for(prog, f, members[a])
         rep.check(got == want.get(a), 'C02.4', 'SignatureV4.pubalg_int', '%s -> %s' % (a, got),
                   'every signing algorithm needs its own signature field class', where=f.where, expected=want.get(a), found=got, scenario=a)
         sc = fields.classes.get(got or '')
@@ -286,39 +573,66 @@ def check_sig_codecs(rep, prog):
                   'a signing algorithm\'s private material must implement sign', where=pc.where, scenario=a)
     # RSA: integer <-> MPI octets
     rsa = fields.classes['RSASignature']
+    SIG = Sym('sig')
     for s in Interp(prog, Scenario(inline=noinline)).run(rsa.methods['__sig__']):
-        rep.check(render(s.ret) == 'SLICE(self.md_mod_n.to_mpibytes();2;)', 'C02.4', 'RSASignature.__sig__', render(s.ret),
-                  'the RSA signature handed to the verifier is the MPI value octets', where=rsa.where)
-    for s in Interp(prog, Scenario(inline=noinline)).run(rsa.methods['from_signer']):
+        exp = sl('self.md_mod_n.to_mpibytes()', (2, ''))
+        rep.check(render(s.ret) == exp, 'C02.4', 'RSASignature.__sig__', render(s.ret),
+                  'the RSA signature handed to the verifier is the MPI value octets', where=rsa.where, expected=exp, found=render(s.ret))
+    f = rsa.methods['from_signer']
+    for s in Interp(prog, Scenario(args=at(f, p1=SIG), inline=noinline)).run(f):
         st = [v for p, v, l, _ in s.stores if p == 'self.md_mod_n']
-        rep.check(st == ['MPI(self.bytes_to_int(sig))'], 'C02.4', 'RSASignature.from_signer', '%s' % st,
+        rep.check(len(st) == 1 and st[0] in ['MPI(%s)' % b for b in b2i_forms('self', 'sig')], 'C02.4', 'RSASignature.from_signer', '%s' % st,
                   'the signer output is stored as one big-endian integer', where=rsa.where)
-    # EdDSA: two halves of (key_size + 7) // 8 octets both ways
+    # EdDSA: two halves of (key_size + 7) // 8 octets both ways (RFC 8032: R and S are 32 octets each for Ed25519)
     ed = fields.classes['EdDSASignature']
-    W = '((EllipticCurveOID.Ed25519.key_size + 7) // 8)'
+    widths = ('((EllipticCurveOID.Ed25519.key_size + 7) // 8)', '32')
     for s in Interp(prog, Scenario(inline=noinline)).run(ed.methods['__sig__']):
         r = render(s.ret)
-        rep.check(r == 'INT(%s;self.r) INT(%s;self.s)' % (W, W), 'C02.4', 'EdDSASignature.__sig__', r,
+        rep.check(r in ['INT(%s;self.r) INT(%s;self.s)' % (W, W) for W in widths], 'C02.4', 'EdDSASignature.__sig__', r,
                   'r and s must each be emitted at the full curve width (leading zero octets kept)', where=ed.where,
                   expected='INT(w;r) INT(w;s) with w = (key_size + 7) // 8', found=r)
-    for s in Interp(prog, Scenario(inline=noinline, axioms={'((len(sig) % 2) != 0)': False})).run(ed.methods['from_signer']):
+    f = ed.methods['from_signer']
+    halves = ('(len(sig) // 2)', '(len(sig) >> 1)')
+    lows = lambda H: (H, '-' + H)          # for a signature of even length (odd ones are refused) sig[-h:] is sig[h:]   # noqa: E731
+    npaths = 0
+    for s in Interp(prog, Scenario(args=at(f, p1=SIG), inline=noinline)).run(f):
         if s.raised:
             continue
+        npaths += 1
         r_ = [v for p, v, l, _ in s.stores if p == 'self.r']
         s_ = [v for p, v, l, _ in s.stores if p == 'self.s']
-        rep.check(r_ == ['MPI(self.bytes_to_int(SLICE(sig;;(len(sig) // 2))))'] and s_ == ['MPI(self.bytes_to_int(SLICE(sig;(len(sig) // 2);)))'],
-                  'C02.4', 'EdDSASignature.from_signer', 'r=%s s=%s' % (r_, s_), 'the signer output is split into two equal halves r || s',
-                  where=ed.where)
+        ok = len(r_) == 1 and len(s_) == 1 and any(
+            r_[0] in ['MPI(%s)' % b for b in b2i_forms('self', sl('sig', ('', H)))] and
+            s_[0] in ['MPI(%s)' % b for L in lows(H) for b in b2i_forms('self', sl('sig', (L, '')))] for H in halves)
+        rep.check(ok, 'C02.4', 'EdDSASignature.from_signer', 'r=%s s=%s' % (r_, s_), 'the signer output is split into two equal halves r || s',
+                  where=ed.where, expected='r = sig[:len(sig) // 2], s = sig[len(sig) // 2:]', found='r=%s s=%s' % (r_, s_))
+    if not npaths:
+        raise AnalysisError('EdDSASignature.from_signer: no returning path')
     # DSA / ECDSA: DER SEQUENCE{r, s} both ways
     dsa = fields.classes['DSASignature']
     mp = dsa.attrs.get('__mpis__')
-    rep.check(mp is not None and ast.literal_eval(mp) == ('r', 's'), 'C02.4', 'DSASignature.__mpis__', ast.unparse(mp) if mp else None,
+    try:
+        mpis = tuple(ast.literal_eval(mp)) if mp is not None else None
+    except ValueError:
+        mpis = None
+    rep.check(mpis == ('r', 's'), 'C02.4', 'DSASignature.__mpis__', ast.unparse(mp) if mp else None,
               'DSA-family signatures are the MPIs r then s', where=dsa.where)
-    src = ast.unparse(dsa.methods['__sig__'].node)
-    rep.check('Sequence' in src and 'encoder.encode' in src and 'for n in self.__mpis__' in src, 'C02.4', 'DSASignature.__sig__', 'DER SEQUENCE of r, s',
-              'the verifier input is the DER SEQUENCE {r, s}', where=dsa.where)
+    # the verifier input: encoder.encode(X) of an ASN.1 Sequence X whose components are the INTEGERs named r, s in that order, each
+    # set from the attribute of the same name (decided on the interpreter's call log, the loop over __mpis__ unrolled)
+    f = dsa.methods['__sig__']
+    for s in Interp(prog, Scenario(inline=noinline)).run(f):
+        r = render(s.ret)
+        m = re.match(r'^encoder\.encode\((.*)\)$', r)
+        seq = m.group(1) if m else None
+        comps = re.findall(r"NamedType\('(\w+)', (\w+)\(\)\)", seq or '')
+        sets = [tuple(c[1]) for c in s.calls if seq is not None and c[0] == seq + '.setComponentByName']
+        ok = bool(m) and seq.startswith('Sequence(') and comps == [('r', 'Integer'), ('s', 'Integer')] and \
+            sorted(sets) == [("'r'", 'self.r'), ("'s'", 'self.s')]
+        rep.check(ok, 'C02.4', 'DSASignature.__sig__', 'DER SEQUENCE of r, s', 'the verifier input is the DER SEQUENCE {r, s}', where=dsa.where,
+                  expected="encoder.encode(Sequence{r INTEGER, s INTEGER}) with r = self.r, s = self.s", found='%s; set %s' % (r, sets))
     ec = fields.classes['ECDSASignature']
-    for s in Interp(prog, Scenario(inline=noinline)).run(ec.methods['from_signer']):
+    f = ec.methods['from_signer']
+    for s in Interp(prog, Scenario(args=at(f, p1=SIG), inline=noinline)).run(f):
         r_ = [v for p, v, l, _ in s.stores if p == 'self.r']
         s_ = [v for p, v, l, _ in s.stores if p == 'self.s']
         rep.check(r_ == ['MPI(decoder.decode(sig)[0][0])'] and s_ == ['MPI(decoder.decode(sig)[0][1])'], 'C02.4', 'ECDSASignature.from_signer',
@@ -326,6 +640,7 @@ def check_sig_codecs(rep, prog):
     # generic writer: MPIs in __mpis__ order
     sb = fields.classes['Signature'].methods['__bytearray__']
     for s in Interp(prog, Scenario(inline=noinline)).run(sb):
+        must_model(alpha(render(s.ret)) == 'EACH($1 in self;$1.to_mpibytes())', 'fields.Signature.__bytearray__', render(s.ret))
         rep.check(alpha(render(s.ret)) == 'EACH($1 in self;$1.to_mpibytes())', 'C02.4', 'fields.Signature.__bytearray__', render(s.ret),
                   'signature MPIs are written in field order', where=sb.where)
 
@@ -334,33 +649,49 @@ def check_sig_codecs(rep, prog):
 def check_sigv4_writer(rep, prog):
     ci = prog.cls('pgpy.packet.packets', 'SignatureV4')
     wb = ci.methods['__bytearray__']
+    X = wb.params[0]
+    fields = [BYTE('%s.sigtype' % X), BYTE('%s.pubalg' % X), BYTE('%s.halg' % X)]
+    tail = [SYM('%s.hash2' % X), SYM('%s.signature.__bytearray__()' % X)]
+    tpl = [SYM('%s.header.__bytearray__()' % X)] + fields + [SYM('%s.subpackets.__bytearray__()' % X)] + tail
     for s in Interp(prog, Scenario()).run(wb):
         r = render(s.ret)
-        exp = ('self.header.__bytearray__() INT(1;self.sigtype) INT(1;self.pubalg) INT(1;self.halg) self.subpackets.__bytearray__() '
-               'self.hash2 self.signature.__bytearray__()')
-        rep.check(r == exp, 'C02.5', 'SignatureV4.__bytearray__', r,
+        ok, _, msg = match(s.ret.items, tpl) if isinstance(s.ret, Bytes) else (False, 0, 'not a byte string')
+        must_model(ok, 'SignatureV4.__bytearray__', r)
+        rep.check(ok, 'C02.5', 'SignatureV4.__bytearray__', r,
                   'a V4 signature body is type, pk alg, hash alg, hashed+unhashed areas, left 16 bits, signature MPIs (RFC 4880 5.2.3)',
-                  where=wb.where, expected=exp, found=r)
+                  where=wb.where, expected=render_template(tpl), found='%s (%s)' % (r, msg))
     cb = ci.methods['canonical_bytes']
+    X = cb.params[0]
     for s in Interp(prog, Scenario()).run(cb):
         r = render(s.ret)
-        body = ('INT(1;self.header.version) INT(1;self.sigtype) INT(1;self.pubalg) INT(1;self.halg) self.subpackets.__hashbytearray__() '
-                'INT(2;0) self.hash2 self.signature.__bytearray__()')
-        exp = 'C(88) LEN(4;%s) %s' % (body, body)
-        rep.check(r == exp, 'C02.5', 'SignatureV4.canonical_bytes', r[:100],
+        raw = merge_consts(s.ret.items) if isinstance(s.ret, Bytes) else []
+        # the four-octet count must be the length of exactly the terms that follow it (whatever they are; they are matched next)
+        k = next((i for i, it in enumerate(raw) if it[0] == 'INT' and str(it[1]) == '4'), None)
+        rest = 'len(%s)' % render_items(raw[k + 1:]) if k is not None else None
+        body = [BYTE('%s.header.version' % X)] + fields + [SYM('%s.subpackets.__hashbytearray__()' % X), C('0000')] + tail
+        tpl = [C('88'), Pred('LEN(4; the body that follows)', lambda it, _rest=rest: it[0] == 'INT' and str(it[1]) == '4' and it[2] == _rest)] + body
+        ok, _, msg = match(raw, tpl) if raw else (False, 0, 'not a byte string')
+        must_model(ok, 'SignatureV4.canonical_bytes', r)
+        rep.check(ok, 'C02.5', 'SignatureV4.canonical_bytes', r[:100],
                   'a signature being signed/attested is 0x88, four-octet length, body with an empty unhashed area (RFC 4880 5.2.4)',
-                  where=cb.where, expected=exp, found=r)
+                  where=cb.where, expected=render_template(tpl), found='%s (%s)' % (r, msg))
+    # the two areas when built from objects (for the hashed one: no received octets are held, C05.2 decides which attribute that is)
     sp = prog.cls('pgpy.packet.fields', 'SubPackets')
-    for s in Interp(prog, Scenario(bind={'self._hashed_raw': Const(None)}, inline=noinline)).run(sp.methods['__hashbytearray__']):
-        r = render(s.ret)
-        exp = 'INT(2;sum(EACH($1 in self._hashed_sp.values();len($1)))) EACH($2 in self._hashed_sp.values();$2.__bytearray__())'
-        rep.check(alpha(r) == exp, 'C02.5', 'SubPackets.__hashbytearray__', r, 'a freshly built hashed area is its two-octet length then its subpackets in order',
-                  where=sp.where, expected=exp, found=r)
-    for s in Interp(prog, Scenario(inline=noinline)).run(sp.methods['__unhashbytearray__']):
-        r = render(s.ret)
-        exp = 'INT(2;sum(EACH($1 in self._unhashed_sp.values();len($1)))) EACH($2 in self._unhashed_sp.values();$2.__bytearray__())'
-        rep.check(alpha(r) == exp, 'C02.5', 'SubPackets.__unhashbytearray__', r, 'the unhashed area is its two-octet length then its subpackets in order',
-                  where=sp.where, expected=exp, found=r)
+    from rules.C05 import raw_attribute
+    raw = raw_attribute(prog)
+    for meth, coll, sc, what in (
+            ('__hashbytearray__', 'self._hashed_sp.values()', Scenario(bind={'self.%s' % raw: Const(None)} if raw else {}, inline=noinline), 'a freshly built hashed area'),
+            ('__unhashbytearray__', 'self._unhashed_sp.values()', Scenario(inline=noinline), 'the unhashed area')):
+        f = sp.methods.get(meth)
+        if f is None:
+            raise AnalysisError('SubPackets.%s vanished' % meth)
+        tpl = area_template(coll)
+        for s in Interp(prog, sc).run(f):
+            r = render(s.ret)
+            ok, _, msg = match(s.ret.items, tpl) if isinstance(s.ret, Bytes) else (False, 0, 'not a byte string')
+            must_model(ok, 'SubPackets.%s' % meth, r)
+            rep.check(ok, 'C02.5', 'SubPackets.%s' % meth, r, '%s is its two-octet length then its subpackets in order' % what,
+                      where=sp.where, expected=render_template(tpl), found='%s (%s)' % (r, msg))
 
 
 # ------------------------------------------------------------------------------------------------ C02.6
